@@ -178,7 +178,7 @@ impl<'a> TyGen<'a> {
         let n = rng.below(4) as usize;
         let mut ms = Vec::new();
         for _ in 0..n {
-            let name = rng.pick(&WORDS).to_string();
+            let name = if rng.chance(1, 6) { rng.pick(&["größe", "名前", "🐂", "naïve", "Ünï"]).to_string() } else { rng.pick(&WORDS).to_string() };
             let t = if rng.chance(1, 4) { self.kind_ref(rng, DefKind::Func).unwrap_or_else(|| self.func(rng, depth)) } else { self.func(rng, depth) };
             ms.push((name, t));
         }
@@ -283,7 +283,10 @@ pub fn gen_text(rng: &mut Rng) -> String {
         4 => "héllo wörld".to_string(),
         5 => "日本語テキスト".to_string(),
         6 => "🦀 \u{10FFFF} \u{0}\"\\\n".to_string(),
-        _ => (0..rng.range(1, 40)).map(|_| char::from_u32(rng.range(0x20, 0x7e) as u32).unwrap()).collect(),
+        _ => {
+            let n = if rng.chance(1, 6) { rng.range(40, 300) } else { rng.range(1, 40) };
+            (0..n).map(|_| char::from_u32(rng.range(0x20, 0x7e) as u32).unwrap()).collect()
+        }
     }
 }
 
@@ -648,7 +651,8 @@ fn upgrade_step_once(rng: &mut Rng, env: &SEnv, t: &SType, down: bool, prims: &[
     let p = *rng.pick(prims);
     let r2 = rng.next_u64();
     let mut kind: &'static str = "none";
-    let _ = env;
+    // definitions that are optional only through their name (opt t, null, reserved)
+    let opt_aliases: Vec<String> = env.0.iter().filter(|(_, b)| matches!(b, SType::Opt(_) | SType::Prim(Prim::Null) | SType::Prim(Prim::Reserved))).map(|(n, _)| n.clone()).collect();
     let mut f = |x: &SType| -> SType {
         match (down, choice, x) {
             // --- specialise (new <: old)
@@ -701,9 +705,16 @@ fn upgrade_step_once(rng: &mut Rng, env: &SEnv, t: &SType, down: bool, prims: &[
                 SType::Prim(Prim::Int)
             }
             (false, 2, SType::Record(fs)) => {
-                kind = "add-optional-field";
                 let mut fs = fs.clone();
-                fs.push((lab.clone(), SType::opt(SType::Prim(p))));
+                if !opt_aliases.is_empty() && r2 % 2 == 0 {
+                    kind = "add-optional-field-through-alias";
+                    // a label that tends to sort before the fields already there
+                    let l = if r2 % 4 == 0 { SLabel::Id((r2 >> 8) as u32 % 3) } else { lab.clone() };
+                    fs.push((l, SType::Name(opt_aliases[(r2 >> 16) as usize % opt_aliases.len()].clone())));
+                } else {
+                    kind = "add-optional-field";
+                    fs.push((lab.clone(), SType::opt(SType::Prim(p))));
+                }
                 SType::record(fs)
             }
             (false, 3, SType::Record(fs)) if !fs.is_empty() => {
